@@ -285,6 +285,23 @@ def o_contain(cimp, ctx):
         if bad:
             probs.append((f"task {x} was executed although task {bad[0]}, on whose product it depends, had failed in this build",
                           ("F31",) if x >= 20000 else ()))
+    # ... and every other task is executed or skipped on its own merits: "skipped because a previous task
+    # failed" needs a failed task it depends on
+    for x in order:
+        if rep[x] != O["SKIP_PREVIOUS_FAILED"]:
+            continue
+        seen, todo = set(), [x]
+        while todo:
+            y = todo.pop()
+            for u in order:
+                if u not in seen and u != y and writes.get(u, set()) & reads.get(y, set()):
+                    seen.add(u); todo.append(u)
+        if not any(u in seen for u in failed):
+            probs.append((f"task {x} was skipped because a previous task failed, but no task it depends on failed", ()))
+    nfail = len(failed)
+    mf = ctx["op"]["cfg"].get("max_failures")
+    if cimp["exit"] == 0 and nfail:
+        probs.append((f"exit code 0 with {nfail} failed tasks", ()))
     return probs
 
 
